@@ -41,6 +41,9 @@ class Ctx:
         self.nfresh = 0
         self.havoc_map = {}    # description of havoc symbols
         self.stage = 0
+        self.last_names = None
+        self.cur_net = None
+        self.cur_heat = False
 
 
 CTX = Ctx()
@@ -111,6 +114,10 @@ def sym_spsolve(A, b):
     ent = A.entries
     k = len(CTX.systems)
     rec = {"A": A, "entries": ent, "b": _np.array(b, dtype=object), "n": n, "k": k}
+    if getattr(CTX, "last_names", None) is not None:
+        rec["node_names"], rec["branch_names"] = list(CTX.last_names[0]), list(CTX.last_names[1])
+        rec["heat"] = bool(getattr(CTX, "cur_heat", False))
+        rec["mode"] = "heat" if rec["heat"] else "hydraulics"
     if CTX.spsolve_mode == 'fixed_point':
         rec["x"] = None
         rec["cons"] = [_t(v) == 0 for v in b]
@@ -122,7 +129,9 @@ def sym_spsolve(A, b):
         out = _np.empty(n, dtype=object)
         out[...] = 0.0
         return out
-    x = _np.array([Sym(z3.Real('x%d_%d' % (k, i))) for i in range(n)], dtype=object)
+    xn = _x_names(n, k)
+    rec["xnames"] = xn
+    x = _np.array([Sym(z3.Real(nm)) for nm in xn], dtype=object)
     cons = []
     rows = {}
     for (r, c), v in ent.items():
@@ -137,7 +146,7 @@ def sym_spsolve(A, b):
     rec["x"] = x
     rec["cons"] = cons
     if ENG.witness is not None:
-        _witness_solve(ent, b, n, k)
+        _witness_solve(ent, b, n, k, xn)
     CTX.systems.append(rec)
     for c in cons:
         CTX.lin.append(c)
@@ -146,7 +155,37 @@ def sym_spsolve(A, b):
     return x
 
 
-def _witness_solve(ent, b, n, k):
+def _x_names(n, k):
+    """names of the update unknowns by element identity (shared between runs that are compared):
+    dx<k>[p|junction:3:0], dx<k>[m|pipe:0:1], dx<k>[msl|junction:0:0]"""
+    tag = getattr(CTX, "xtag", "")
+    names = getattr(CTX, "last_names", None)
+    net = getattr(CTX, "cur_net", None)
+    if names is None or net is None:
+        return ['x%s%d_%d' % (tag, k, i) for i in range(n)]
+    nn, bn = names
+    heat = getattr(CTX, "cur_heat", False)
+    out = []
+    if n == len(nn) + len(bn) and heat:
+        out = ["dx%s%d[T|%s]" % (tag, k, a) for a in nn] + ["dx%s%d[Tout|%s]" % (tag, k, a) for a in bn]
+    elif n >= len(nn) + len(bn):
+        out = ["dx%s%d[p|%s]" % (tag, k, a) for a in nn] + ["dx%s%d[m|%s]" % (tag, k, a) for a in bn]
+        try:
+            from pandapipes.idx_node import NODE_TYPE, P
+            npit = net["_active_pit"]["node"]
+            sl = [i for i in range(len(npit)) if npit[i, NODE_TYPE] == P]
+        except Exception:
+            sl = []
+        if len(sl) == n - len(out):
+            out += ["dx%s%d[msl|%s]" % (tag, k, nn[i]) for i in sl]
+        else:
+            out += ["dx%s%d[msl|#%d]" % (tag, k, i) for i in range(n - len(out))]
+    else:
+        out = ['x%s%d_%d' % (tag, k, i) for i in range(n)]
+    return out
+
+
+def _witness_solve(ent, b, n, k, xn):
     """concolic mode: give the x symbols the values of the numeric solve at the witness"""
     from .evalterm import evaluate
     A = _np.zeros((n, n))
@@ -154,11 +193,14 @@ def _witness_solve(ent, b, n, k):
         A[r, c] = evaluate(_t(v), ENG.witness, ENG.wfuncs)
     bb = _np.array([evaluate(_t(v), ENG.witness, ENG.wfuncs) for v in b], dtype=float)
     try:
+        if _np.linalg.cond(A) > 1e11:
+            raise _np.linalg.LinAlgError("ill-conditioned")
         xv = _np.linalg.solve(A, bb)
     except _np.linalg.LinAlgError:
         xv = _np.linalg.lstsq(A, bb, rcond=None)[0]
+        ENG.witness["__singular__"] = 1.0
     for i in range(n):
-        ENG.witness['x%d_%d' % (k, i)] = float(xv[i])
+        ENG.witness[xn[i]] = float(xv[i])
 
 
 def coo_wrap(arg, shape=None, **kw):
